@@ -59,6 +59,7 @@ impl Writer {
         }
     }
 
+    #[cfg_attr(not(windows), allow(dead_code))]
     fn is_tty(&self) -> bool {
         // 1.40 compat
         #[allow(clippy::match_like_matches_macro)]
@@ -193,7 +194,19 @@ impl ConsoleAppenderBuilder {
             },
         };
 
-        let do_write = writer.is_tty() || !self.tty_only;
+        // `tty_only` is about the target stream being a terminal, whatever the colour
+        // settings decided about the kind of writer.
+        #[cfg(not(windows))]
+        let is_tty = unsafe {
+            libc::isatty(match self.target {
+                Target::Stderr => libc::STDERR_FILENO,
+                Target::Stdout => libc::STDOUT_FILENO,
+            })
+        } == 1;
+        #[cfg(windows)]
+        let is_tty = writer.is_tty();
+
+        let do_write = is_tty || !self.tty_only;
 
         ConsoleAppender {
             writer,
